@@ -1,3 +1,5 @@
+//go:build c01 || allprops
+
 package main
 
 import _ "verifharness/props/c01"
